@@ -194,9 +194,13 @@ func vgfGenOp(t *rapid.T, label string, cfg vgfCfg, ws []vgfWeight) vgfOp {
 	case "import", "importClear", "roaring", "roaringClear":
 		op.Clear = strings.HasSuffix(op.Name, "Clear")
 		op.Name = strings.TrimSuffix(op.Name, "Clear")
-		n := rapid.IntRange(1, 6).Draw(t, label+".n")
-		// few distinct columns so that batches repeat a column with conflicting rows
+		// mostly small batches; some with 13-60 entries (sorting code switches algorithm above 12 elements), always
+		// over few distinct columns so that batches repeat a column, non-adjacently, with conflicting rows
+		n := rapid.OneOf(rapid.IntRange(1, 6), rapid.IntRange(1, 6), rapid.IntRange(1, 6), rapid.IntRange(13, 60)).Draw(t, label+".n")
 		ncols := rapid.IntRange(1, 3).Draw(t, label+".ncolpool")
+		if n > 12 {
+			ncols = rapid.IntRange(2, 5).Draw(t, label+".ncolpoolBig")
+		}
 		var pool []uint64
 		for i := 0; i < ncols; i++ {
 			pool = append(pool, col(fmt.Sprintf(".pc%d", i)))
@@ -292,9 +296,15 @@ type vgfM struct {
 	nSnap       int
 	lastOp      string         // name of the operation applied last
 	events      map[string]int // free-form class counters of this case
-	wide        bool           // some container held more values than fit inline
-	nReopen     int
-	paths       map[string]int
+
+	// C12: a cache epoch starts at a recalculation that found the cache holding at most CacheSize rows (so every
+	// later count >= 1 is admitted) and lasts while the rows it could hold still fit.
+	epochOn bool
+	epochG  map[uint64]struct{} // rows guaranteed to be cached: cached at the epoch start or changed since
+	epochB  map[uint64]struct{} // rows that may have an entry: cached at the epoch start or named by a write since
+	wide    bool                // some container held more values than fit inline
+	nReopen int
+	paths   map[string]int
 }
 
 func vgfNew(t *rapid.T, cfg vgfCfg, dir, name string) *vgfM {
@@ -506,6 +516,12 @@ func (m *vgfM) wrote(path string, rows ...uint64) {
 	m.paths[path]++
 	for _, r := range rows {
 		m.touched[r] = struct{}{}
+		if m.epochOn {
+			m.epochB[r] = struct{}{}
+			if uint32(len(m.epochB)) > m.cfg.CacheSize {
+				m.epochOn = false
+			}
+		}
 		if m.readSince[r] && m.lastPath[r] != "" && m.lastPath[r] != path {
 			m.pendingX[r] = true
 		}
@@ -592,7 +608,57 @@ func vgfOfficialRoaring(positions []uint64) []byte {
 // ---------------------------------------------------------------------------
 // applying one operation to the fragment and to the model
 
+func (m *vgfM) rowDigest() map[uint64]string {
+	d := map[uint64]string{}
+	for _, r := range m.modelRows() {
+		d[r] = fmt.Sprint(m.rowCols(r))
+	}
+	return d
+}
+
+// startEpoch recalculates the count cache and opens a cache epoch if all cached rows fit (see epochOn).
+func (m *vgfM) startEpoch() bool {
+	m.epochOn = false
+	if m.cfg.Cache == CacheTypeNone {
+		return false
+	}
+	m.f.RecalculateCache()
+	n := m.f.cache.Len()
+	m.hist = append(m.hist, fmt.Sprintf("RecalculateCache (cache holds %d rows)", n))
+	if uint32(n) > m.cfg.CacheSize {
+		return false
+	}
+	m.epochOn, m.epochG, m.epochB = true, map[uint64]struct{}{}, map[uint64]struct{}{}
+	for _, id := range m.f.cache.IDs() {
+		m.epochG[id] = struct{}{}
+		m.epochB[id] = struct{}{}
+	}
+	return true
+}
+
+// apply runs one operation on the fragment and on the model.
 func (m *vgfM) apply(op vgfOp) {
+	var before map[uint64]string
+	if m.epochOn {
+		before = m.rowDigest()
+	}
+	m.apply1(op)
+	if m.epochOn && before != nil {
+		after := m.rowDigest()
+		for r, d := range after {
+			if before[r] != d {
+				m.epochG[r] = struct{}{} // every path that changes a row also updates its count in the cache
+			}
+		}
+		for r := range before {
+			if _, ok := after[r]; !ok {
+				m.epochG[r] = struct{}{}
+			}
+		}
+	}
+}
+
+func (m *vgfM) apply1(op vgfOp) {
 	if op.Name == "importValue" && op.Clear && op.Stored {
 		op.Vals = append([]int64(nil), op.Vals...)
 		for i, c := range op.Cols {
@@ -828,6 +894,7 @@ func (m *vgfM) apply(op vgfOp) {
 			m.fail("Open: %v", err)
 		}
 		m.nReopen++
+		m.epochOn = false
 		m.blkComputed = map[int]bool{}
 		m.blkDirty = map[int]bool{}
 	case "reopenNew":
@@ -840,6 +907,7 @@ func (m *vgfM) apply(op vgfOp) {
 			m.fail("Open (new object): %v", err)
 		}
 		m.nReopen++
+		m.epochOn = false
 		m.blkComputed = map[int]bool{}
 		m.blkDirty = map[int]bool{}
 	case "flush":
